@@ -60,8 +60,8 @@ impl<T> ValuesMatrix<T> {
     pub fn slice_iter(&self, skip: GenerationIdx) -> impl Iterator<Item = &[T]> {
         self.values
             .iter()
-            .filter(|generation| !generation.is_empty())
             .skip(skip.into())
+            .filter(|generation| !generation.is_empty())
             .map(|generation| generation.as_ref())
     }
 
